@@ -134,7 +134,8 @@ impl BoxedUint {
             res[nlimbs - i - 1] = Limb(Word::from_be_bytes(buf));
             i += 1;
         }
-        CtOption::new(Self { limbs: res.into() }, Choice::from((err == 0) as u8))
+        // `From<Vec<Limb>>` guarantees at least one limb (a precision below `Limb::BITS` gives none)
+        CtOption::new(res.into(), Choice::from((err == 0) as u8))
     }
 
     /// Create a new [`BoxedUint`] from a big-endian string in a given base.
